@@ -11,6 +11,8 @@
 
 from hypothesis import strategies as st
 
+from hplverif.tape import Chooser, from_tape
+
 from hplverif import mast
 from hplverif.mast import FALSE, TRUE, binop, own
 
@@ -52,52 +54,50 @@ def prim_ftype(T):
 ###############################################################################
 
 
-@st.composite
-def ftypes(draw, depth):
+def ftypes(ch, depth):
     kinds = ['bool', 'num', 'num', 'str', 'arr', 'arr']
     if depth > 0:
         kinds += ['msg', 'arrmsg']
-    k = draw(st.sampled_from(kinds))
+    k = ch.pick(kinds)
     if k == 'bool':
         return ('bool',)
     if k == 'num':
-        return ('num', draw(st.sampled_from(NUM_TOKENS)))
+        return ('num', ch.pick(NUM_TOKENS))
     if k == 'str':
         return ('str',)
     if k == 'arr':
-        elem = draw(st.sampled_from([('bool',), ('num', 'int32'), ('num', 'float64'), ('str',)]))
-        return ('arr', elem, draw(st.sampled_from([-1, -1, 1, 2, 3])))
-    sub = draw(schemas(depth=depth - 1, small=True))
+        elem = ch.pick([('bool',), ('num', 'int32'), ('num', 'float64'), ('str',)])
+        return ('arr', elem, ch.pick([-1, -1, 1, 2, 3]))
+    sub = schemas(ch, depth=depth - 1, small=True)
     if k == 'msg':
         return ('msg', sub)
-    return ('arr', ('msg', sub), draw(st.sampled_from([-1, 2, 3])))
+    return ('arr', ('msg', sub), ch.pick([-1, 2, 3]))
 
 
-@st.composite
-def schemas(draw, depth=2, small=False):
-    n_extra = draw(st.integers(0, 2 if small else 4))
+def schemas(ch, depth=2, small=False):
+    n_extra = ch.int(0, 2 if small else 4)
     pool = NEUTRAL_FIELDS + KW_FIELDS
-    names = draw(st.lists(st.sampled_from(pool), min_size=5 + n_extra, max_size=5 + n_extra, unique=True))
-    base = [('bool',), ('num', draw(st.sampled_from(NUM_TOKENS))), ('num', 'float64'), ('str',), ('arr', ('num', 'int32'), -1)]
+    names = ch.sample(pool, min_size=5 + n_extra, max_size=5 + n_extra, unique=True)
+    base = [('bool',), ('num', ch.pick(NUM_TOKENS)), ('num', 'float64'), ('str',), ('arr', ('num', 'int32'), -1)]
     if small:
-        base = base[: draw(st.integers(2, 5))]
+        base = base[: ch.int(2, 5)]
         names = names[: len(base) + n_extra]
     fields = {}
     for name, ft in zip(names, base):
         fields[name] = ft
     for name in names[len(base) :]:
-        fields[name] = draw(ftypes(depth))
+        fields[name] = ftypes(ch, depth)
     consts = {}
-    if draw(st.integers(0, 3)) == 0:
-        cname = draw(st.sampled_from(('K', 'MAXV', 'NOTE', 'E2')))
+    if ch.int(0, 3) == 0:
+        cname = ch.pick(('K', 'MAXV', 'NOTE', 'E2'))
         if cname not in fields:
-            which = draw(st.sampled_from(['num', 'str', 'bool']))
+            which = ch.pick(['num', 'str', 'bool'])
             if which == 'num':
-                consts[cname] = (('num', 'uint8'), draw(st.sampled_from([0, 1, 2])))
+                consts[cname] = (('num', 'uint8'), ch.pick([0, 1, 2]))
             elif which == 'str':
-                consts[cname] = (('str',), draw(st.sampled_from(['"a"', '"b"'])))
+                consts[cname] = (('str',), ch.pick(['"a"', '"b"']))
             else:
-                consts[cname] = (('bool',), draw(st.booleans()))
+                consts[cname] = (('bool',), ch.bool())
     return {'fields': fields, 'consts': consts}
 
 
@@ -151,8 +151,13 @@ class Env:
     chaos:   probability weight (0..100) of dropping the type discipline at a position (G-syn)
     """
 
-    def __init__(self, this=None, aliases=None, qvars=None, chaos=0, reserved=()):
+    def __init__(self, this=None, aliases=None, qvars=None, chaos=0, reserved=(), qtypes=None, allow_f12=False):
         self.this = this
+        # type at which each quantified-variable name has been bound anywhere in this predicate:
+        # sibling quantifiers may reuse a name, but only at the same element type (finding F12:
+        # the library groups references by printed form across sibling binders)
+        self.qtypes = {} if qtypes is None else qtypes
+        self.allow_f12 = allow_f12
         self.aliases = dict(aliases or {})
         self.qvars = dict(qvars or {})
         self.chaos = chaos
@@ -160,7 +165,15 @@ class Env:
         self._paths = {}
 
     def with_qvar(self, name, T):
-        e = Env(self.this, self.aliases, dict(self.qvars, **{name: T}), self.chaos, self.reserved)
+        e = Env(self.this, self.aliases, dict(self.qvars, **{name: T}), self.chaos, self.reserved, self.qtypes, self.allow_f12)
+        e._paths = self._paths
+        return e
+
+    def derive(self, chaos=None, reserved=None):
+        e = Env(
+            self.this, self.aliases, self.qvars, self.chaos if chaos is None else chaos,
+            self.reserved if reserved is None else reserved, self.qtypes, self.allow_f12,
+        )  # fmt: skip
         e._paths = self._paths
         return e
 
@@ -186,247 +199,237 @@ class Env:
 ###############################################################################
 
 
-def _lit(T):
+def _lit(ch, T):
     if T == 'B':
-        return st.sampled_from([TRUE, FALSE])
+        return ch.pick([TRUE, FALSE])
     if T == 'S':
-        return st.sampled_from([('lit', 'str', s) for s in STR_LITS])
-    return st.one_of(
-        st.sampled_from([('lit', 'int', s) for s in INT_LITS]),
-        st.sampled_from([('lit', 'int', s) for s in INT_LITS]),
-        st.sampled_from([('lit', 'float', s) for s in FLOAT_LITS]),
-    )
+        return ('lit', 'str', ch.pick(STR_LITS))
+    if ch.int(0, 2) < 2:
+        return ('lit', 'int', ch.pick(INT_LITS))
+    return ('lit', 'float', ch.pick(FLOAT_LITS))
 
 
-@st.composite
-def ref_term(draw, env, want, depth):
+def ref_term(ch, env, want, depth):
     """A reference of the wanted type, or None when the environment has none."""
     cands = env.candidates(want)
     qv = [n for n, T in env.qvars.items() if T == want]
     if not cands and not qv:
         return None
-    if qv and (not cands or draw(st.integers(0, 2)) == 0):
-        return ('var', draw(st.sampled_from(sorted(qv))))
-    key, steps = draw(st.sampled_from(cands))
+    if qv and (not cands or ch.int(0, 2) == 0):
+        return ('var', ch.pick(sorted(qv)))
+    key, steps = ch.pick(cands)
     node = ('this',) if key is None else ('var', key)
     for step in steps:
         if step[0] == 'f':
             node = ('field', node, step[1])
         else:
             length = step[1]
-            if length >= 0 or depth <= 0 or draw(st.integers(0, 2)) > 0:
+            if length >= 0 or depth <= 0 or ch.int(0, 2) > 0:
                 hi = (length - 1) if length >= 0 else 2
-                idx = ('lit', 'int', str(draw(st.integers(0, max(hi, 0)))))
+                idx = ('lit', 'int', str(ch.int(0, max(hi, 0))))
             else:
-                idx = draw(typed_term(env, 'N', min(depth - 1, 1)))
+                idx = typed_term(ch, env, 'N', min(depth - 1, 1))
             node = ('index', node, idx)
     return node
 
 
-@st.composite
-def any_term(draw, env, depth):
+def any_term(ch, env, depth):
     """A term of a random kind (used by chaos and by G-syn positions)."""
-    kind = draw(st.sampled_from(['B', 'N', 'S', 'SET', 'RANGE', 'ARR', 'MSG', 'B', 'N']))
+    kind = ch.pick(['B', 'N', 'S', 'SET', 'RANGE', 'ARR', 'MSG', 'B', 'N'])
     if kind in PRIM:
-        return draw(typed_term(env, kind, depth))
+        return typed_term(ch, env, kind, depth)
     if kind == 'SET':
-        return draw(set_lit(env, draw(st.sampled_from(PRIM)), depth))
+        return set_lit(ch, env, ch.pick(PRIM), depth)
     if kind == 'RANGE':
-        return draw(range_lit(env, depth))
+        return range_lit(ch, env, depth)
     if kind == 'ARR':
-        r = draw(ref_term(env, draw(st.sampled_from(['AN', 'AB', 'AS', 'AM'])), depth))
+        r = ref_term(ch, env, ch.pick(['AN', 'AB', 'AS', 'AM']), depth)
         return r if r is not None else own('xs')
-    r = draw(ref_term(env, 'M', depth))
+    r = ref_term(ch, env, 'M', depth)
     return r if r is not None else own('m')
 
 
-@st.composite
-def set_lit(draw, env, T, depth):
-    n = draw(st.integers(1, 3))
-    return ('set', tuple(draw(typed_term(env, T, max(depth - 1, 0))) for _ in range(n)))
+def set_lit(ch, env, T, depth):
+    n = ch.int(1, 3)
+    return ('set', tuple(typed_term(ch, env, T, max(depth - 1, 0)) for _ in range(n)))
 
 
-@st.composite
-def range_lit(draw, env, depth):
-    lo = draw(typed_term(env, 'N', max(depth - 1, 0)))
-    hi = draw(typed_term(env, 'N', max(depth - 1, 0)))
-    return ('range', lo, hi, draw(st.booleans()), draw(st.booleans()))
+def range_lit(ch, env, depth):
+    lo = typed_term(ch, env, 'N', max(depth - 1, 0))
+    hi = typed_term(ch, env, 'N', max(depth - 1, 0))
+    return ('range', lo, hi, ch.bool(), ch.bool())
 
 
-@st.composite
-def compound(draw, env, T, depth):
+def compound(ch, env, T, depth):
     """A compound value with elements of primitive type T: array reference, set or range literal."""
     opts = ['set']
     if T == 'N':
         opts += ['range', 'range']
-    arr = draw(ref_term(env, 'A' + T, depth))
+    arr = ref_term(ch, env, 'A' + T, depth)
     if arr is not None:
         opts += ['arr', 'arr']
-    k = draw(st.sampled_from(opts))
+    k = ch.pick(opts)
     if k == 'arr':
         return arr
     if k == 'range':
-        return draw(range_lit(env, depth))
-    return draw(set_lit(env, T, depth))
+        return range_lit(ch, env, depth)
+    return set_lit(ch, env, T, depth)
 
 
-def _fresh_qvar(draw, env):
+def _fresh_qvar(ch, env):
     used = set(env.qvars) | set(env.aliases) | env.reserved
     free = [v for v in QVARS if v not in used]
-    return draw(st.sampled_from(free)) if free else None
+    return ch.pick(free) if free else None
 
 
-@st.composite
-def atom_using(draw, env, var, T, depth):
+def atom_using(ch, env, var, T, depth):
     """A boolean atom that uses @var (of primitive type T)."""
     v = ('var', var)
     if T == 'B':
-        k = draw(st.integers(0, 3))
+        k = ch.int(0, 3)
         if k == 0:
             return v
         if k == 1:
             return ('un', 'not', v)
-        other = draw(typed_term(env, 'B', max(depth - 1, 0)))
-        return binop(draw(st.sampled_from(['=', '!=', 'implies', 'or'])), v, other)
+        other = typed_term(ch, env, 'B', max(depth - 1, 0))
+        return binop(ch.pick(['=', '!=', 'implies', 'or']), v, other)
     if T == 'S':
-        k = draw(st.integers(0, 2))
-        other = draw(typed_term(env, 'S', max(depth - 1, 0)))
+        k = ch.int(0, 2)
+        other = typed_term(ch, env, 'S', max(depth - 1, 0))
         if k == 0:
-            return binop(draw(st.sampled_from(['=', '!='])), v, other)
+            return binop(ch.pick(['=', '!=']), v, other)
         if k == 1:
             return binop('=', other, v)
-        return binop('in', v, draw(set_lit(env, 'S', max(depth - 1, 0))))
-    k = draw(st.integers(0, 4))
-    other = draw(typed_term(env, 'N', max(depth - 1, 0)))
+        return binop('in', v, set_lit(ch, env, 'S', max(depth - 1, 0)))
+    k = ch.int(0, 4)
+    other = typed_term(ch, env, 'N', max(depth - 1, 0))
     if k == 0:
-        return binop(draw(st.sampled_from(['<', '<=', '>', '>=', '=', '!='])), v, other)
+        return binop(ch.pick(['<', '<=', '>', '>=', '=', '!=']), v, other)
     if k == 1:
-        return binop(draw(st.sampled_from(['<', '>=', '='])), other, v)
+        return binop(ch.pick(['<', '>=', '=']), other, v)
     if k == 2:
-        return binop('in', v, draw(compound(env, 'N', max(depth - 1, 0))))
+        return binop('in', v, compound(ch, env, 'N', max(depth - 1, 0)))
     if k == 3:
-        return binop(draw(st.sampled_from(['<', '>'])), binop(draw(st.sampled_from(['+', '-', '*'])), v, other), draw(_lit('N')))
+        return binop(ch.pick(['<', '>']), binop(ch.pick(['+', '-', '*']), v, other), _lit(ch, 'N'))
     return binop('>', ('call', 'abs', v), other)
 
 
-@st.composite
-def quantifier(draw, env, depth):
-    var = _fresh_qvar(draw, env)
+def quantifier(ch, env, depth):
+    var = _fresh_qvar(ch, env)
     if var is None:
         return None
-    T = draw(st.sampled_from(['N', 'N', 'B', 'S']))
+    T = ch.pick(['N', 'N', 'B', 'S'])
+    if not env.allow_f12:
+        T = env.qtypes.setdefault(var, T)
     # the domain must not mention the variable, not even bound by a quantifier of its own
-    outer = Env(env.this, env.aliases, env.qvars, env.chaos, env.reserved | {var})
-    outer._paths = env._paths
-    dom = draw(compound(outer, T, max(depth - 1, 0)))
+    outer = env.derive(reserved=env.reserved | {var})
+    dom = compound(ch, outer, T, max(depth - 1, 0))
     inner = env.with_qvar(var, T)
-    core = draw(atom_using(inner, var, T, max(depth - 1, 0)))
-    k = draw(st.integers(0, 5))
+    core = atom_using(ch, inner, var, T, max(depth - 1, 0))
+    k = ch.int(0, 5)
     if k <= 2 or depth <= 1:
         body = core
     else:
-        other = draw(typed_term(inner, 'B', max(depth - 2, 0)))
+        other = typed_term(ch, inner, 'B', max(depth - 2, 0))
         if k == 3:
             body = binop('and', core, other)
         elif k == 4:
             body = binop('implies', other, core)
         else:
-            body = binop(draw(st.sampled_from(['or', 'and', 'iff'])), other, core)
-    return ('q', draw(st.sampled_from(['forall', 'exists'])), var, dom, body)
+            body = binop(ch.pick(['or', 'and', 'iff']), other, core)
+    return ('q', ch.pick(['forall', 'exists']), var, dom, body)
 
 
-@st.composite
-def typed_term(draw, env, T, depth):
+def typed_term(ch, env, T, depth):
     """A term of primitive type T in {'B','N','S'}, consistent with env's schemas."""
-    if env.chaos and draw(st.integers(0, 99)) < env.chaos:
-        return draw(any_term(Env(env.this, env.aliases, env.qvars, env.chaos // 2, env.reserved), max(depth - 1, 0)))
+    if env.chaos and ch.int(0, 99) < env.chaos:
+        return any_term(ch, env.derive(chaos=env.chaos // 2), max(depth - 1, 0))
     if depth <= 0:
-        r = draw(ref_term(env, T, 0))
-        if r is not None and draw(st.integers(0, 3)) > 0:
+        r = ref_term(ch, env, T, 0)
+        if r is not None and ch.int(0, 3) > 0:
             return r
-        if T == 'B' and draw(st.integers(0, 3)) > 0:
+        if T == 'B' and ch.int(0, 3) > 0:
             # avoid drowning boolean positions in True/False
-            l = draw(ref_term(env, 'N', 0)) or draw(_lit('N'))
-            return binop(draw(st.sampled_from(['<', '>', '=', '>=', '<=', '!='])), l, draw(_lit('N')))
-        return draw(_lit(T))
+            l = ref_term(ch, env, 'N', 0) or _lit(ch, 'N')
+            return binop(ch.pick(['<', '>', '=', '>=', '<=', '!=']), l, _lit(ch, 'N'))
+        return _lit(ch, T)
     d = depth - 1
     if T == 'B':
-        k = draw(st.integers(0, 15))
+        k = ch.int(0, 15)
         if k <= 1:
-            return draw(typed_term(env, 'B', 0))
+            return typed_term(ch, env, 'B', 0)
         if k == 2:
-            return ('un', 'not', draw(typed_term(env, 'B', d)))
+            return ('un', 'not', typed_term(ch, env, 'B', d))
         if k <= 6:
-            op = draw(st.sampled_from(['and', 'and', 'or', 'or', 'implies', 'iff']))
-            return binop(op, draw(typed_term(env, 'B', d)), draw(typed_term(env, 'B', d)))
+            op = ch.pick(['and', 'and', 'or', 'or', 'implies', 'iff'])
+            return binop(op, typed_term(ch, env, 'B', d), typed_term(ch, env, 'B', d))
         if k <= 8:
-            op = draw(st.sampled_from(['<', '<=', '>', '>=']))
-            return binop(op, draw(typed_term(env, 'N', d)), draw(typed_term(env, 'N', d)))
+            op = ch.pick(['<', '<=', '>', '>='])
+            return binop(op, typed_term(ch, env, 'N', d), typed_term(ch, env, 'N', d))
         if k <= 10:
-            P = draw(st.sampled_from(['N', 'N', 'S', 'B']))
-            op = draw(st.sampled_from(['=', '!=']))
-            return binop(op, draw(typed_term(env, P, d)), draw(typed_term(env, P, d)))
+            P = ch.pick(['N', 'N', 'S', 'B'])
+            op = ch.pick(['=', '!='])
+            return binop(op, typed_term(ch, env, P, d), typed_term(ch, env, P, d))
         if k == 11:
-            P = draw(st.sampled_from(['N', 'N', 'S', 'B']))
-            return binop('in', draw(typed_term(env, P, d)), draw(compound(env, P, d)))
+            P = ch.pick(['N', 'N', 'S', 'B'])
+            return binop('in', typed_term(ch, env, P, d), compound(ch, env, P, d))
         if k <= 13:
-            q = draw(quantifier(env, depth))
+            q = quantifier(ch, env, depth)
             if q is not None:
                 return q
-            return draw(typed_term(env, 'B', 0))
+            return typed_term(ch, env, 'B', 0)
         if k == 14:
-            return ('call', 'bool', draw(typed_term(env, draw(st.sampled_from(PRIM)), d)))
-        return draw(typed_term(env, 'B', 0))
+            return ('call', 'bool', typed_term(ch, env, ch.pick(PRIM), d))
+        return typed_term(ch, env, 'B', 0)
     if T == 'N':
-        k = draw(st.integers(0, 13))
+        k = ch.int(0, 13)
         if k <= 2:
-            return draw(typed_term(env, 'N', 0))
+            return typed_term(ch, env, 'N', 0)
         if k == 3:
-            return ('un', '-', draw(typed_term(env, 'N', d)))
+            return ('un', '-', typed_term(ch, env, 'N', d))
         if k <= 8:
-            op = draw(st.sampled_from(['+', '+', '-', '-', '*', '*', '/', '**']))
-            return binop(op, draw(typed_term(env, 'N', d)), draw(typed_term(env, 'N', d)))
+            op = ch.pick(['+', '+', '-', '-', '*', '*', '/', '**'])
+            return binop(op, typed_term(ch, env, 'N', d), typed_term(ch, env, 'N', d))
         if k == 9:
-            return ('const', draw(st.sampled_from(['PI', 'E', 'PI', 'E', 'INF', 'NAN'])))
+            return ('const', ch.pick(['PI', 'E', 'PI', 'E', 'INF', 'NAN']))
         if k == 10:
-            f = draw(st.sampled_from(NUM_FUNCS_N))
-            if f in ('int', 'float') and draw(st.integers(0, 3)) == 0:
-                return ('call', f, draw(typed_term(env, draw(st.sampled_from(['B', 'S'])), d)))
-            return ('call', f, draw(typed_term(env, 'N', d)))
+            f = ch.pick(NUM_FUNCS_N)
+            if f in ('int', 'float') and ch.int(0, 3) == 0:
+                return ('call', f, typed_term(ch, env, ch.pick(['B', 'S']), d))
+            return ('call', f, typed_term(ch, env, 'N', d))
         if k <= 12:
-            f = draw(st.sampled_from(AGG_FUNCS))
+            f = ch.pick(AGG_FUNCS)
             if f == 'len':
-                P = draw(st.sampled_from(PRIM))
-                return ('call', f, draw(compound(env, P, d)))
-            return ('call', f, draw(compound(env, 'N', d)))
-        m = draw(ref_term(env, 'M', d))
-        if m is not None and draw(st.integers(0, 2)) == 0:
-            return ('call', draw(st.sampled_from(MSG_FUNCS)), m)
-        return draw(typed_term(env, 'N', 0))
+                P = ch.pick(PRIM)
+                return ('call', f, compound(ch, env, P, d))
+            return ('call', f, compound(ch, env, 'N', d))
+        m = ref_term(ch, env, 'M', d)
+        if m is not None and ch.int(0, 2) == 0:
+            return ('call', ch.pick(MSG_FUNCS), m)
+        return typed_term(ch, env, 'N', 0)
     # strings
-    k = draw(st.integers(0, 4))
+    k = ch.int(0, 4)
     if k <= 3:
-        return draw(typed_term(env, 'S', 0))
-    return ('call', 'str', draw(typed_term(env, draw(st.sampled_from(PRIM)), d)))
+        return typed_term(ch, env, 'S', 0)
+    return ('call', 'str', typed_term(ch, env, ch.pick(PRIM), d))
 
 
 def uses_this(e):
     return mast.has_this(e)
 
 
-@st.composite
-def predicate_term(draw, env, depth, need_this=True):
+def predicate_term(ch, env, depth, need_this=True):
     """A boolean condition for an event predicate; references the current message."""
-    e = draw(typed_term(env, 'B', depth))
+    e = typed_term(ch, env, 'B', depth)
     if e in (TRUE, FALSE):
         return e
     if need_this and env.this is not None and not uses_this(e):
-        anchor = draw(ref_term(Env(env.this, chaos=0), 'B', 0))
+        anchor = ref_term(ch, Env(env.this, chaos=0), 'B', 0)
         if anchor is None:
-            n = draw(ref_term(Env(env.this, chaos=0), 'N', 0))
+            n = ref_term(ch, Env(env.this, chaos=0), 'N', 0)
             anchor = binop('>=', n, ('lit', 'int', '0')) if n is not None else None
         if anchor is not None:
-            e = binop(draw(st.sampled_from(['and', 'or'])), anchor, e) if draw(st.booleans()) else binop('and', e, anchor)
+            e = binop(ch.pick(['and', 'or']), anchor, e) if ch.bool() else binop('and', e, anchor)
     return e
 
 
@@ -435,15 +438,14 @@ def predicate_term(draw, env, depth, need_this=True):
 ###############################################################################
 
 
-@st.composite
-def layouts(draw):
-    mode = draw(st.integers(0, 5))
+def layouts(ch):
+    mode = ch.int(0, 5)
     if mode == 0:
         return mast.Layout()
-    seps = draw(st.lists(st.integers(0, 9), min_size=1, max_size=12)) if mode >= 2 else ()
+    seps = ch.ints(0, 9, 1, 12) if mode >= 2 else ()
     extra = ()
     if mode >= 3:
-        extra = draw(st.lists(st.sampled_from([0, 0, 0, 1, 0, 2]), min_size=1, max_size=7))
+        extra = [ch.pick([0, 0, 0, 1, 0, 2]) for _ in range(ch.int(1, 7))]
     return mast.Layout(seps=seps, extra=extra, full=(mode in (1, 5)))
 
 
@@ -457,14 +459,25 @@ PATTERNS = ('existence', 'absence', 'response', 'prevention', 'requirement')
 TIME_NUMS = ('1', '2', '10', '100', '0.5', '3.5', '1.', '.5', '1e3', '2.5e-3', '0', '0.001', '250', '1e-3')
 
 
-@st.composite
-def time_bounds(draw, wild=False):
-    if draw(st.integers(0, 2)) == 0:
+def time_bounds(ch, wild=False):
+    if ch.int(0, 2) == 0:
         return None
-    if wild and draw(st.booleans()):
-        v = draw(st.floats(min_value=0.0, max_value=1e308, allow_nan=False, allow_infinity=False))
-        return (repr(v), draw(st.sampled_from(['s', 'ms'])))
-    return (draw(st.sampled_from(TIME_NUMS)), draw(st.sampled_from(['s', 'ms'])))
+    if wild and ch.bool():
+        k = ch.int(0, 3)
+        if k == 0:
+            v = ch.float64(0.0, 1e308)
+            txt = repr(v)
+        elif k == 1:
+            v = ch.unit()
+            txt = repr(v)
+        elif k == 2:
+            txt = str(ch.int(1, 99999) / 10 ** ch.int(1, 6))
+        else:
+            txt = f'{ch.int(0, 9999)}e{ch.int(-12, 12)}'
+        if txt in ('inf', 'nan'):
+            txt = '1e400'
+        return (txt, ch.pick(['s', 'ms']))
+    return (ch.pick(TIME_NUMS), ch.pick(['s', 'ms']))
 
 
 class PropCtx:
@@ -477,39 +490,37 @@ class PropCtx:
         self.all_aliases = set()
 
 
-@st.composite
-def simple_event(draw, pc, topic, visible, depth, alias=None, pred_prob=3):
+def simple_event(ch, pc, topic, visible, depth, alias=None, pred_prob=3):
     """('ev', topic, alias, pred). visible: aliases that may be referenced here."""
     schema = pc.topic_schemas[topic]
     pred = None
-    if draw(st.integers(0, pred_prob)) > 0:
+    if ch.int(0, pred_prob) > 0:
         aliases = {a: pc.alias_schema[a] for a in visible}
-        if alias is not None and draw(st.integers(0, 3)) == 0:
+        if alias is not None and ch.int(0, 3) == 0:
             aliases[alias] = schema  # the event's own alias may be used too
         env = Env(schema, aliases, chaos=pc.chaos, reserved=pc.all_aliases)
-        pred = draw(predicate_term(env, depth))
+        pred = predicate_term(ch, env, depth)
     return ('ev', topic, alias, pred)
 
 
-@st.composite
-def any_event(draw, pc, topics, visible, depth, width=None, alias_prob=2, taken=()):
+def any_event(ch, pc, topics, visible, depth, width=None, alias_prob=2, taken=()):
     """A simple event or a disjunction over distinct topics. Returns (event, aliases bound by all alternatives)."""
     if width is None:
-        width = draw(st.sampled_from([1, 1, 1, 2, 2, 3, 4]))
+        width = ch.pick([1, 1, 1, 2, 2, 3, 4])
     width = min(width, len(topics))
-    chosen = draw(st.lists(st.sampled_from(sorted(topics)), min_size=width, max_size=width, unique=True))
+    chosen = ch.sample(sorted(topics), min_size=width, max_size=width, unique=True)
     evs = []
     bound = []
     free_aliases = [a for a in ALIASES if a not in pc.all_aliases and a not in taken]
     for t in chosen:
         alias = None
-        if free_aliases and draw(st.integers(0, alias_prob)) == 0:
-            alias = draw(st.sampled_from(free_aliases))
+        if free_aliases and ch.int(0, alias_prob) == 0:
+            alias = ch.pick(free_aliases)
             free_aliases.remove(alias)
             pc.all_aliases.add(alias)
             pc.alias_schema[alias] = pc.topic_schemas[t]
             bound.append(alias)
-        evs.append(draw(simple_event(pc, t, visible, depth, alias=alias)))
+        evs.append(simple_event(ch, pc, t, visible, depth, alias=alias))
     if width == 1:
         return evs[0], tuple(bound)
     # only an alias bound by every alternative is safely visible later; with
@@ -518,68 +529,65 @@ def any_event(draw, pc, topics, visible, depth, width=None, alias_prob=2, taken=
     return ('disj', tuple(evs)), ()
 
 
-@st.composite
-def properties(draw, depth=3, chaos=0, wild_time=False, max_width=4, meta=True, schemas_out=None):
+def properties(ch, depth=3, chaos=0, wild_time=False, max_width=4, meta=True, schemas_out=None):
     """A sanity-correct property with schema-consistent predicates.
 
     Returns (prop, info) with info = {'topics': {topic: schema}, 'aliases': {alias: topic-schema}}.
     """
-    ntopics = draw(st.integers(2, 6))
-    topics = draw(st.lists(st.sampled_from(TOPICS), min_size=ntopics, max_size=ntopics, unique=True))
-    topic_schemas = {t: draw(schemas(depth=1, small=True)) for t in topics}
+    ntopics = ch.int(2, 6)
+    topics = ch.sample(TOPICS, min_size=ntopics, max_size=ntopics, unique=True)
+    topic_schemas = {t: schemas(ch, depth=1, small=True) for t in topics}
     pc = PropCtx(topic_schemas, chaos=chaos)
-    sk = draw(st.sampled_from(SCOPES))
-    pk = draw(st.sampled_from(PATTERNS))
-    widths = st.sampled_from([w for w in [1, 1, 1, 2, 2, 3, 4] if w <= max_width])
+    sk = ch.pick(SCOPES)
+    pk = ch.pick(PATTERNS)
+    widths = [w for w in [1, 1, 1, 2, 2, 3, 4] if w <= max_width]
     act = term = trig = None
     act_aliases = ()
     if sk in ('after', 'after_until'):
-        act, act_aliases = draw(any_event(pc, topics, (), depth, width=draw(widths)))
+        act, act_aliases = any_event(ch, pc, topics, (), depth, width=ch.pick(widths))
     if pk in ('existence', 'absence'):
-        beh, _ = draw(any_event(pc, topics, act_aliases, depth, width=draw(widths)))
+        beh, _ = any_event(ch, pc, topics, act_aliases, depth, width=ch.pick(widths))
     elif pk == 'requirement':
-        beh, b_al = draw(any_event(pc, topics, act_aliases, depth, width=draw(widths)))
-        trig, _ = draw(any_event(pc, topics, act_aliases + b_al, depth, width=draw(widths)))
+        beh, b_al = any_event(ch, pc, topics, act_aliases, depth, width=ch.pick(widths))
+        trig, _ = any_event(ch, pc, topics, act_aliases + b_al, depth, width=ch.pick(widths))
     else:
-        trig, t_al = draw(any_event(pc, topics, act_aliases, depth, width=draw(widths)))
-        beh, _ = draw(any_event(pc, topics, act_aliases + t_al, depth, width=draw(widths)))
+        trig, t_al = any_event(ch, pc, topics, act_aliases, depth, width=ch.pick(widths))
+        beh, _ = any_event(ch, pc, topics, act_aliases + t_al, depth, width=ch.pick(widths))
     if sk in ('until', 'after_until'):
-        term, _ = draw(any_event(pc, topics, act_aliases, depth, width=draw(widths)))
-    bound = draw(time_bounds(wild=wild_time))
+        term, _ = any_event(ch, pc, topics, act_aliases, depth, width=ch.pick(widths))
+    bound = time_bounds(ch, wild=wild_time)
     md = ()
     if meta:
-        keys = draw(st.lists(st.sampled_from(['id', 'title', 'description']), unique=True, max_size=3))
+        keys = ch.sample(['id', 'title', 'description'], unique=True, max_size=3)
         vals = {
-            'id': st.sampled_from(['p1', 'prop_2', 'notes', 'id', 'P3x']),
-            'title': st.sampled_from(['"A title"', '"t"', '""', '"with # hash"', '"say \\"hi\\""']),
-            'description': st.sampled_from(['"Some text."', '"d"', '"globally: no a"', '"line\\nbreak"']),
+            'id': (['p1', 'prop_2', 'notes', 'id', 'P3x']),
+            'title': (['"A title"', '"t"', '""', '"with # hash"', '"say \\"hi\\""']),
+            'description': (['"Some text."', '"d"', '"globally: no a"', '"line\\nbreak"']),
         }
-        md = tuple((k, draw(vals[k])) for k in keys)
+        md = tuple((k, ch.pick(vals[k])) for k in keys)
     prop = ('prop', md, ('scope', sk, act, term), ('pat', pk, trig, beh, bound))
     info = {'topics': topic_schemas, 'aliases': dict(pc.alias_schema)}
     return prop, info
 
 
-@st.composite
-def standalone_predicates(draw, depth=4, chaos=0):
+def standalone_predicates(ch, depth=4, chaos=0):
     """(condition, schema, alias schemas) for predicate/expression entry points."""
-    schema = draw(schemas(depth=2))
+    schema = schemas(ch, depth=2)
     aliases = {}
-    for a in draw(st.lists(st.sampled_from(ALIASES[:5]), max_size=2, unique=True)):
-        aliases[a] = draw(schemas(depth=1, small=True))
+    for a in ch.sample(ALIASES[:5], max_size=2, unique=True):
+        aliases[a] = schemas(ch, depth=1, small=True)
     env = Env(schema, aliases, chaos=chaos, reserved=set(aliases))
-    e = draw(predicate_term(env, depth, need_this=False))
+    e = predicate_term(ch, env, depth, need_this=False)
     return e, schema, aliases
 
 
-@st.composite
-def standalone_terms(draw, depth=4, chaos=0, T=None):
-    schema = draw(schemas(depth=2))
+def standalone_terms(ch, depth=4, chaos=0, T=None):
+    schema = schemas(ch, depth=2)
     aliases = {}
-    for a in draw(st.lists(st.sampled_from(ALIASES[:5]), max_size=2, unique=True)):
-        aliases[a] = draw(schemas(depth=1, small=True))
+    for a in ch.sample(ALIASES[:5], max_size=2, unique=True):
+        aliases[a] = schemas(ch, depth=1, small=True)
     env = Env(schema, aliases, chaos=chaos, reserved=set(aliases))
     if T is None:
-        T = draw(st.sampled_from(['B', 'B', 'N', 'N', 'S']))
-    e = draw(typed_term(env, T, depth))
+        T = ch.pick(['B', 'B', 'N', 'N', 'S'])
+    e = typed_term(ch, env, T, depth)
     return e, T, schema, aliases
